@@ -486,7 +486,7 @@ class SimulateOde(DeterministicOde):
         assert self._t0 is not None, "No initial time"
         assert self._x0 is not None, "No initial state"
 
-        t = self._t0.tolist()
+        t = np.asarray(self._t0).tolist()     # also a plain Python number, initial_values = (x0, 0)
         x = copy.deepcopy(self._x0)
 
         # holders and record information
